@@ -13,7 +13,7 @@
                not return the chunk's rows / the kept rows (the slices in which the property is stated)
           3  = input outside the stated regime (harness bug) *)
 From Coq Require Import ZArith List Lia Bool.
-From PV Require Export Base.PySlice Base.NpSearch C16.Model C16.Spec.
+From PV Require Export Base.PySlice Base.NpSearch C16.Model C16.Spec C16.Rate.
 Import ListNotations.
 Open Scope Z_scope.
 
@@ -21,6 +21,7 @@ Inductive input :=
 | InChunkBounds (n cs ov : Z)
 | InReaderBounds (sizes : list Z) (cs : Z)
 | InReader (sizes : list Z) (cs : Z)
+| InReaderRate (sizes : list Z) (num k : Z)      (* stage 5: reader built with sample_rate = num / 2^k *)
 | InMtscomp (n : Z) (cb : list Z) (bs : Z)
 | InExcerpts (n k size : Z)
 | InGetExcerpts (n k size : Z)
@@ -75,6 +76,17 @@ Definition dc_tuple_b (n : Z) (is_tuple : bool) (t : list Z) (wo : bool) (r : dc
   | _ => true
   end.
 
+Definition check_reader (sizes : list Z) (cs : Z) (o : observed) : list Z :=
+  match o with
+  | ObsReader b ivs ns =>
+      flag 1 (opt_eqb zlist_eqb (get_chunk_bounds sizes cs) b &&
+              opt_eqb (list_eqb iv_eqb) (option_map iter_base (get_chunk_bounds sizes cs)) ivs) ++
+      flag 22 (bounds_spec_b sizes cs b) ++
+      flag 23 (tiles_b (zsum sizes) ivs) ++
+      flag 24 (ns =? zsum sizes)
+  | _ => [1; 22; 23; 24]
+  end.
+
 Definition check (c : case) : list Z :=
   match cin c, cobs c with
   | InChunkBounds n cs ov, o =>
@@ -93,15 +105,13 @@ Definition check (c : case) : list Z :=
       end
   | InReader sizes cs, o =>
       if negb ((1 <=? zlen sizes) && forallb (fun x => 0 <=? x) sizes && (1 <=? cs)) then [3] else
-      match o with
-      | ObsReader b ivs ns =>
-          flag 1 (opt_eqb zlist_eqb (get_chunk_bounds sizes cs) b &&
-                  opt_eqb (list_eqb iv_eqb) (option_map iter_base (get_chunk_bounds sizes cs)) ivs) ++
-          flag 22 (bounds_spec_b sizes cs b) ++
-          flag 23 (tiles_b (zsum sizes) ivs) ++
-          flag 24 (ns =? zsum sizes)
-      | _ => [1; 22; 23; 24]
-      end
+      check_reader sizes cs o
+  | InReaderRate sizes num k, o =>
+      (* the chunk length is computed by the model from the rate (C16_chunk_len_nearest); the regime
+         also asks that the float product cannot change the rounding (Rate.v, rate_exact_b) *)
+      let cs := chunk_len_of_rate num k in
+      if negb ((1 <=? zlen sizes) && forallb (fun x => 0 <=? x) sizes && rate_exact_b num k && (1 <=? cs))
+      then [3] else check_reader sizes cs o
   | InMtscomp n cb bs, o =>
       if negb (match cb with 0 :: r => chain_b n 0 r | _ => false end &&
                (2 <=? zlen cb) && (last cb 0 =? n) && (1 <=? bs)) then [3] else
